@@ -8,15 +8,21 @@ from checks import pagegen as G
 from checks.zdirlab import Lab, diff_index_vs_files
 
 PROPERTY = "C11"
-CONTRACTS = ["contracts.c05"]
+CONTRACTS = ["contracts.c05", "contracts.c11"]
 LEVEL = "other"
 EXPLANATION = (
-    "Contract-based: _pop_line_before_zid and _add_or_update_modify_date are verified against the specification of the stamped "
-    "first line written from the statement (YYMMDD inserted in front of the ZID, or replacing the date that is there; prefix "
-    "kept) for every first line of a bounded number of fully symbolic words (bounded-symbolic). "
-    "The iff of the statement (stamped exactly when the note had that ZID before, changed, and is not dated today), the frame "
-    "(every other line byte-identical), index/file agreement and quiescence of an immediately following reindex are checked "
-    "on generated edit histories over frozen calendar days through the real ReindexDBCommand (bounded)."
+    "Contract-based (bounded-symbolic): _check_for_modified_notes - the function that decides which notes a reindex stamps - is "
+    "verified against the statement: a note of the new page is stamped exactly when it carries a ZID the old page knows, differs "
+    "from that indexed note (body or todo payload) and is not already dated today; a stamped note gets today's date and a body "
+    "in which today's YYMMDD takes the place of the old modify-date word (or is put in front when there was none); every other "
+    "note is untouched; one ModifiedZorgNotesEvent listing exactly the stamped notes in page order is queued iff something was "
+    "stamped (new page <= 1 / 2 notes, old page <= 2 notes, every field fully symbolic; Page.notes through an assumed contract). "
+    "_pop_line_before_zid and _add_or_update_modify_date are verified against the specification of the stamped first line "
+    "(YYMMDD inserted in front of the ZID, or replacing the date that is there; prefix kept) for every first line of a bounded "
+    "number of fully symbolic words. "
+    "The frame over the file (every other line byte-identical), index/file agreement and quiescence of an immediately "
+    "following reindex are checked on generated and directed edit histories over frozen calendar days through the real "
+    "ReindexDBCommand (bounded)."
 )
 ASSUMPTIONS = ["A-ASCII", "the calendar day is constant during one command (freezegun in the bounded tier)"]
 TRUSTED = ["SQLAlchemy/SQLite, antlr4 (end-to-end part runs the real stack)", "z3 5.1 / cvc5 1.0.3", "pyvc symbolic interpreter (engine/)"]
